@@ -16,6 +16,7 @@
 #include "TagHDF5.hpp"
 #include "MultiTagHDF5.hpp"
 #include "GroupHDF5.hpp"
+#include "h5x/H5DataType.hpp"
 
 #include <boost/range/irange.hpp>
 
@@ -309,6 +310,9 @@ shared_ptr<IDataArray> BlockHDF5::createDataArray(const std::string &name,
                                                   nix::DataType data_type,
                                                   const NDSize &shape,
                                                   const Compression &compression) {
+    // an element type without a file representation is refused before anything is created
+    data_type_to_h5_filetype(data_type);
+
     string id = util::createId();
     boost::optional<H5Group> g = data_array_group(true);
 
